@@ -152,6 +152,8 @@ type FnCtx struct {
 	heap         *Heap
 	ghost        map[string]string
 	ghostSort    map[string]string
+	sentOf       map[ssa.Value][]string // hand-off flags of SSA values that are sent on a channel
+	sentAt       []sentSite
 	ghost0       map[string]string
 	defers       []deferred
 	subrefSeen   map[string]bool
@@ -480,4 +482,9 @@ func sortedKeys(m map[string]bool) []string {
 	}
 	sort.Strings(ks)
 	return ks
+}
+
+type sentSite struct {
+	instr *ssa.Send
+	name  string
 }
